@@ -472,3 +472,152 @@ Proof.
     rewrite B_length. cbn [andb]. rewrite root_scan_id by apply Hnodd. reflexivity. }
   rewrite P34. rewrite tail_rules_fin; [reflexivity|apply Hnodd|exact Nz].
 Qed.
+
+(* ---- the spec machine run on all fields (empty ones included) ---------------------------------- *)
+Lemma step_trail_irrelevant : forall R out t t' n, norm_step R (out, t) n = norm_step R (out, t') n.
+Proof. intros. unfold norm_step. reflexivity. Qed.
+
+Lemma fold_filter_nonempty : forall R X out t t',
+  fst (fold_left (norm_step R) (filter (fun e => negb (is_empty e)) X) (out, t)) =
+  fst (fold_left (norm_step R) X (out, t')).
+Proof.
+  induction X as [|x X IH]; intros out t t'; [reflexivity|].
+  cbn [filter fold_left]. destruct x as [|c x'].
+  - cbn [is_empty negb]. change (norm_step R (out, t') []) with (out, true). apply IH.
+  - cbn [is_empty negb fold_left]. rewrite (step_trail_irrelevant R out t t').
+    destruct (norm_step R (out, t') (c :: x')) as [o1 t1]. apply IH.
+Qed.
+
+Lemma fold_left_snoc : forall (A B : Type) (f : A -> B -> A) X l a,
+  fold_left f (X ++ [l]) a = f (fold_left f X a) l.
+Proof. intros. rewrite fold_left_app. reflexivity. Qed.
+
+Lemma normal_elems_of_fields : forall R fs, fs <> [] -> normal_elems R (elems_of fs) = normal_elems R fs.
+Proof.
+  intros R fs N. destruct (exists_last N) as (X & l & ->).
+  unfold elems_of. rewrite removelast_app1, last_app1.
+  unfold normal_elems at 2. rewrite fold_left_snoc.
+  pose proof (fold_filter_nonempty R X [] false false) as F.
+  destruct (fold_left (norm_step R) X ([], false)) as [o2 t2] eqn:E2. cbn [fst] in F.
+  destruct (filter (fun e => negb (is_empty e)) X) as [|n names] eqn:EX.
+  - cbn [fold_left fst] in F. subst o2. destruct (is_empty l) eqn:El.
+    + apply is_empty_eq in El. subst l. reflexivity.
+    + unfold normal_elems. cbn [fold_left]. rewrite (step_trail_irrelevant R [] false t2). reflexivity.
+  - unfold normal_elems. rewrite fold_left_snoc.
+    destruct (fold_left (norm_step R) (n :: names) ([], false)) as [o1 t1]. cbn [fst] in F. subst o2.
+    rewrite (step_trail_irrelevant R o1 t1 t2). reflexivity.
+Qed.
+
+Lemma fold_nodd : forall R X out t, (forall f, In f X -> is_dotdot f = false) ->
+  fst (fold_left (norm_step R) X (out, t)) = rev (filter keepf X) ++ out.
+Proof.
+  induction X as [|x X IH]; intros out t H; [reflexivity|].
+  cbn [fold_left filter]. unfold norm_step at 2. unfold keepf at 1.
+  destruct (is_empty x || is_dot x) eqn:E; cbn [negb].
+  - apply IH. intros f Hf. apply H. right. exact Hf.
+  - rewrite (H x (or_introl eq_refl)). rewrite IH by (intros f Hf; apply H; right; exact Hf).
+    cbn [rev]. rewrite <- app_assoc. reflexivity.
+Qed.
+
+Definition body (K : list elem) : list Z := concat (map (fun f => f ++ [SEP]) K).
+
+Lemma join_snoc : forall K l, join_elems (K ++ [l]) = body K ++ l.
+Proof.
+  induction K as [|f K IH]; intro l; [cbn; reflexivity|].
+  cbn [app]. destruct (K ++ [l]) as [|e rest] eqn:E; [destruct K; discriminate|].
+  change (join_elems (f :: e :: rest)) with (f ++ SEP :: join_elems (e :: rest)).
+  rewrite <- E, IH. unfold body. cbn [map concat]. rewrite <- !app_assoc. reflexivity.
+Qed.
+
+Lemma emit_body : forall fs, fs <> [] ->
+  emit fs = body (filter keepf (removelast fs)) ++ last fs [].
+Proof.
+  induction fs as [|f fs IH]; intro N; [congruence|].
+  destruct fs as [|f2 fs'].
+  - reflexivity.
+  - rewrite emit_cons by discriminate. rewrite IH by discriminate.
+    change (removelast (f :: f2 :: fs')) with (f :: removelast (f2 :: fs')).
+    change (last (f :: f2 :: fs') []) with (last (f2 :: fs') []).
+    cbn [filter]. destruct (keepf f); [|reflexivity].
+    unfold body. cbn [map concat]. rewrite <- !app_assoc. reflexivity.
+Qed.
+
+Lemma body_snoc : forall K x, body (K ++ [x]) = body K ++ x ++ [SEP].
+Proof. intros. unfold body. rewrite map_app, concat_app. cbn. rewrite app_nil_r. reflexivity. Qed.
+
+Lemma rev_root_acc : forall k, rev (root_acc k) = root_acc k.
+Proof. intro k. unfold root_acc. destruct (k =? 1); reflexivity. Qed.
+
+Lemma fin_sep_top : forall t, fin (SEP :: t) = rev (SEP :: t).
+Proof.
+  intro t. unfold fin. destruct t as [|e t']; [reflexivity|].
+  replace ((e =? SEP) && (SEP =? DOT)) with false by (rewrite andb_false_r; reflexivity). reflexivity.
+Qed.
+
+Lemma fin_dot_sep_top : forall t, fin (DOT :: SEP :: t) = rev (SEP :: t).
+Proof. intro t. reflexivity. Qed.
+
+(* the final text of the model equals the rendered result of the spec machine *)
+Lemma fin_render : forall k fs, (k = 0 \/ k = 1) -> fs <> [] -> Forall sepfree fs ->
+  (forall f, In f fs -> is_dotdot f = false) ->
+  fin (rev (emit fs) ++ root_acc k) = render (k =? 1) (normal_elems (k =? 1) fs).
+Proof.
+  intros k fs Hk N Hsf Hdd. rewrite emit_body by exact N.
+  destruct (exists_last N) as (X & l & ->). rewrite removelast_app1, last_app1.
+  set (K := filter keepf X).
+  assert (HddX : forall f, In f X -> is_dotdot f = false) by (intros f Hf; apply Hdd; apply in_or_app; left; exact Hf).
+  assert (Hl : is_dotdot l = false) by (apply Hdd; apply in_or_app; right; left; reflexivity).
+  assert (Hsl : sepfree l) by (apply Forall_app in Hsf as [_ H]; inversion H; assumption).
+  unfold normal_elems. rewrite fold_left_snoc.
+  pose proof (fold_nodd (k =? 1) X [] false HddX) as F. rewrite app_nil_r in F. fold K in F.
+  destruct (fold_left (norm_step (k =? 1)) X ([], false)) as [o1 t1]. cbn [fst] in F. subst o1.
+  unfold norm_step. destruct (is_empty l || is_dot l) eqn:El.
+  - (* the last field is "" or ".": nothing is pushed, a separator is due *)
+    assert (HK : forall x K', K = K' ++ [x] -> is_dotdot x = false).
+    { intros x K' E. apply HddX. assert (In x K) by (rewrite E; apply in_or_app; right; left; reflexivity).
+      unfold K in H. apply filter_In in H. apply H. }
+    unfold norm_finish. rewrite rev_app_distr.
+    destruct K as [|x0 K0] eqn:EK using rev_ind.
+    + (* nothing kept *)
+      cbn [rev body map concat app].
+      apply orb_true_iff in El as [El | El].
+      * apply is_empty_eq in El. subst l. cbn [rev app].
+        destruct Hk as [-> | ->]; reflexivity.
+      * apply is_dot_eq in El. subst l. cbn [rev app].
+        destruct Hk as [-> | ->]; reflexivity.
+    + clear IHK0. rewrite body_snoc. rewrite rev_app_distr. cbn [rev app].
+      replace (rev (K0 ++ [x0])) with (x0 :: rev K0) by (rewrite rev_app_distr; reflexivity).
+      cbv iota. rewrite (HK x0 K0 eq_refl). cbn [rev]. rewrite rev_involutive.
+      unfold render. rewrite join_snoc, body_snoc, app_nil_r.
+      rewrite !rev_app_distr. cbn [rev app]. rewrite <- !app_assoc. cbn [app].
+      assert (Hrev : rev (SEP :: (rev x0 ++ rev (body K0)) ++ root_acc k) =
+                     (if k =? 1 then [SEP] else []) ++ body K0 ++ x0 ++ [SEP]).
+      { cbn [rev]. rewrite !rev_app_distr, !rev_involutive, rev_root_acc. rewrite <- !app_assoc.
+        destruct Hk as [-> | ->]; reflexivity. }
+      apply orb_true_iff in El as [El | El].
+      * apply is_empty_eq in El. subst l. cbn [rev app]. rewrite fin_sep_top. exact Hrev.
+      * apply is_dot_eq in El. subst l. cbn [rev app]. rewrite fin_dot_sep_top. exact Hrev.
+  - (* the last field is a proper name *)
+    rewrite Hl. unfold norm_finish. rewrite Hl.
+    apply orb_false_iff in El as [Ee Ed].
+    change (rev (l :: rev K)) with (rev (rev K) ++ [l]). rewrite rev_involutive.
+    unfold render. rewrite join_snoc.
+    assert (Hfin : forall acc, (forall d e t, acc = d :: e :: t -> (e =? SEP) && (d =? DOT) = false) -> acc <> [] ->
+                   fin acc = rev acc).
+    { intros acc H1 H2. unfold fin. destruct acc as [|d [|e t]]; [congruence|reflexivity|].
+      rewrite (H1 d e t eq_refl). reflexivity. }
+    rewrite Hfin.
+    + rewrite ?rev_app_distr, ?rev_involutive, ?rev_root_acc, <- ?app_assoc.
+      destruct Hk as [-> | ->]; reflexivity.
+    + intros d e t E. rewrite rev_app_distr in E. rewrite <- ?app_assoc in E.
+      destruct l as [|c1 l1] using rev_ind; [discriminate|]. clear IHl1.
+      rewrite rev_app_distr in E. cbn [rev app] in E. inversion E; subst d.
+      destruct l1 as [|c2 l2] using rev_ind.
+      * cbn [app] in *. unfold is_dot in Ed. cbn in Ed. rewrite andb_true_r in Ed. rewrite Ed. apply andb_false_r.
+      * clear IHl2. rewrite rev_app_distr in H1. cbn [rev app] in H1. inversion H1; subst e.
+        unfold sepfree in Hsl. rewrite Forall_app in Hsl. destruct Hsl as [Hsl _].
+        rewrite Forall_app in Hsl. destruct Hsl as [_ Hsl]. inversion Hsl; subst.
+        apply Z.eqb_neq in H3. rewrite H3. reflexivity.
+    + destruct l as [|c1 l1]; [discriminate|]. intro A. apply (f_equal (@length Z)) in A.
+      rewrite !app_length, rev_length in A. cbn in A. rewrite app_length in A. cbn in A. lia.
+Qed.
